@@ -141,7 +141,26 @@ def fmt_has_full_date(f):
     return False
 
 
+def zoff_oracle(f, ans):
+    colon, off = int(f[2]), int(f[3])
+    if abs(off) >= 86400:
+        return None if ans.startswith("ok zone-err") else "a zone offset of %d s was accepted: %s" % (off, ans)
+    if not ans.startswith("ok ") or " | " not in ans:
+        return "formatting failed: " + ans
+    hx_, back = ans[3:].split(" | ")
+    text = bytes.fromhex(hx_).decode()
+    a = abs(off)
+    want = ("+" if off >= 0 else "-") + "%02d" % (a // 3600) + (":" if colon else "") + "%02d" % (a % 3600 // 60)
+    if text != want:
+        return "offset %d s printed %r, expected %r" % (off, text, want)
+    if off % 60 == 0 and back != str(off):
+        return "%r parses back as %s, the offset was %d" % (text, back, off)
+    return None
+
+
 def oracle(line, ans):
+    if line.split("\t")[1] == "zoff":
+        return zoff_oracle(line.split("\t"), ans)
     """model-free judgement of the implementation's answer; returns a string when the property fails"""
     f = line.split("\t")[1:]
     op = f[0]
@@ -684,6 +703,11 @@ def run(ctx):
         run_zones(ctx)
         n = ctx.n(6000, 250000)
         lines = vlib.corpus_lines("C22") + [gen(ctx.rng) for _ in range(n)]
+        # `%z` / `%:z` of every whole-minute offset (quick: every 7th + boundary pool) and some with seconds, out of range
+        offs = set(m * 60 for m in ZONE_MINUTES) | set(range(-1439 * 60, 1440 * 60, 60 * (7 if ctx.quick else 1)))
+        offs |= {-1830, 1, -1, 59, -59, 86399, -86399, 86400, -86400, 90000}
+        for o in sorted(offs):
+            lines.append("date\tzoff\t%d\t%d" % (ctx.rng.randint(0, 1), o))
         # civil functions against Go's time package over a stride of the whole year range
         step = ctx.n(20011, 199)
         for y in range(MINY, MAXY + 1, step):
